@@ -181,6 +181,23 @@ def run(ck):
             if tags: nontrivial += 1
             if len(samples) < 3 and tags: samples.append({"ops": [[o[0]] + ([hexs(o[1])] if o[0] == "add" else list(o[1:])) for o in ops], "impl": il})
             ofail = overd.get(cid) != ["oracle ok"]
+            # capacity rule of the property text: a packet carrying more than one message never exceeds
+            # the capacity in force when it was filled (= when its last message was added)
+            if not ofail and il is not None:
+                import flowgen
+                pk = flowgen.decode_wire([unhex(l[2:]) for l in il if l.startswith("w ")])
+                capv = 64; caps = []
+                for o in ops:
+                    if o[0] == "cap": capv = 64 if o[1] <= 64 else o[1]
+                    elif o[0] == "add": caps.append(capv)
+                k = 0
+                for p in (pk or []):
+                    k += len(p)
+                    if len(p) >= 2 and sum(len(m) for m in p) > caps[k - 1]:
+                        oracle_fail += 1
+                        ck.violation("capacity-exceeded", {"property": "C01", "ops": [[o[0]] + ([hexs(o[1])] if o[0] == "add" else list(o[1:])) for o in ops], "impl": il,
+                                     "reason": "a packet with %d messages carries %d payload bytes, capacity in force when it was filled is %d" % (len(p), sum(len(m) for m in p), caps[k - 1])})
+                        break
             if il is None or rc != 0 and cid == str(s0 + len(part) - 1):
                 ofail = True
             if ofail:
